@@ -170,33 +170,39 @@ impl<'b, 'tx> Iterator for Cursor<'b, 'tx> {
     type Item = Data<'b, 'tx>;
 
     fn next(&mut self) -> Option<Self::Item> {
-        if self.stack.is_empty() {
-            self.seek_first();
-        } else if self.next_called {
-            loop {
-                {
-                    let b = self.bucket.borrow();
-                    if b.deleted {
-                        panic!("Cannot get data from a deleted bucket.");
-                    }
-                    let elem = self.stack.last_mut().unwrap();
-                    let page_node = b.page_node(elem.id);
-                    if elem.index >= page_node.len().saturating_sub(1) {
-                        if self.stack.len() == 1 {
-                            return None;
-                        }
-                        self.stack.pop();
-                        continue;
-                    } else {
-                        elem.index += 1;
-                    }
-                }
+        loop {
+            if self.stack.is_empty() {
                 self.seek_first();
-                break;
+            } else if self.next_called {
+                loop {
+                    {
+                        let b = self.bucket.borrow();
+                        if b.deleted {
+                            panic!("Cannot get data from a deleted bucket.");
+                        }
+                        let elem = self.stack.last_mut().unwrap();
+                        let page_node = b.page_node(elem.id);
+                        if elem.index >= page_node.len().saturating_sub(1) {
+                            if self.stack.len() == 1 {
+                                return None;
+                            }
+                            self.stack.pop();
+                            continue;
+                        } else {
+                            elem.index += 1;
+                        }
+                    }
+                    self.seek_first();
+                    break;
+                }
+            }
+            self.next_called = true;
+            match self.current() {
+                // a leaf below the root whose keys were all deleted in this transaction: keep going
+                None if self.stack.len() > 1 => continue,
+                data => return data,
             }
         }
-        self.next_called = true;
-        self.current()
     }
 }
 
